@@ -2,6 +2,12 @@ module verif/harness
 
 go 1.13
 
-require github.com/bfenetworks/bfe v0.0.0
+require (
+	github.com/andybalholm/brotli v1.0.0
+	github.com/baidu/go-lib v0.0.0-20200819072111-21df249f5e6a
+	github.com/bfenetworks/bfe v0.0.0
+	github.com/miekg/dns v1.1.29
+	github.com/spaolacci/murmur3 v1.1.0
+)
 
 replace github.com/bfenetworks/bfe => /repo
